@@ -194,6 +194,8 @@ ASSUMPTIONS = [
     "put-if-absent, rename-if-absent, copy and delete (object_store::memory::InMemory behind the gate store)",
     "GETs of manifests are not interleaving points (plain reads pass the gate unblocked; they are recorded and checked)",
     "every writer performs one operation; tables have one fragment of 4 setup rows; versions <= 5",
+    "bare writers (CommitHandler::commit called directly with Manifest::new_from_previous(version 1), no transaction "
+    "file) all target version 2 and make one attempt; they are not mixed with Dataset-API writers in one scenario",
     "a failed LIST of lance_io::ObjectStore::list and a failed HEAD of the object reader are retried by lance (5 / 3 "
     "times): the fault budgets used are smaller than those limits",
     "lock-based handler: the lease of a live holder does not expire (otherwise it does not provide atomic creation); "
@@ -220,14 +222,18 @@ def _sample(scs, cap, rnd):
 
 
 def run_check(prop, tier, replay, families, teeth=(), cap_quick=60, cap_thorough=400, sim_thorough=200,
-              expect_pcs=(), extra_assumptions=()):
+              expect_pcs=(), extra_assumptions=(), expect_counts=()):
     """families: list of fam() dicts (with optional key 'asbuilt': deviations to generate/validate with).
     teeth: list of (fam, invariant) model runs that are EXPECTED to violate `invariant` (sanity of the invariants
     and documented assumption breaks); they are model-only."""
     t0 = time.time()
     out = vlib.Outcome(prop)
     rnd = random.Random(1000 + vlib.seed())
-    binary, build_s = vlib.harness_build("vh_commit")
+    # VH_COMMIT_BIN: use a driver built elsewhere (e.g. against a patched worktree of /repo for seed tests)
+    if os.environ.get("VH_COMMIT_BIN"):
+        binary, build_s = os.environ["VH_COMMIT_BIN"], 0.0
+    else:
+        binary, build_s = vlib.harness_build("vh_commit")
     if replay:
         return _replay_one(prop, tier, replay, binary, out, t0)
     quick = tier == "quick"
@@ -289,7 +295,7 @@ def run_check(prop, tier, replay, families, teeth=(), cap_quick=60, cap_thorough
                 seen.add(k)
                 allscs.append(x)
         gen_total += len(allscs)
-        chosen = _sample(allscs, cap, rnd)
+        chosen = _sample(allscs, f.get("cap", cap) if quick else cap, rnd)
         mc_info.append({"family": f["name"], "distinct": r.get("distinct"), "generated": r.get("generated"),
                         "depth": r.get("depth"), "wall_s": r["wall_s"], "schedules_generated": len(allscs),
                         "schedules_replayed": len(chosen), "as_built_deviations": list(asb)})
@@ -407,6 +413,9 @@ def run_check(prop, tier, replay, families, teeth=(), cap_quick=60, cap_thorough
     missing = [pc for pc in expect_pcs if cov.get(pc, 0) == 0]
     if missing:
         raise vlib.ToolError(f"vacuous run: program points never reached on the implementation: {missing}")
+    missing = [k for k in expect_counts if counts.get(k, 0) == 0]
+    if missing:
+        raise vlib.ToolError(f"vacuous run: situations never reached on the implementation: {missing}")
     if counts.get("publications", 0) == 0 or counts.get("finals", 0) == 0:
         raise vlib.ToolError("vacuous run: no version was ever published / audited")
     rc = out.finish()
